@@ -2,7 +2,7 @@
    digest = H (bytes digested) for the algorithm's function H; the theorems determine the bytes digested. *)
 From Coq Require Import List ZArith Bool.
 Import ListNotations.
-From GU Require Import C20.Model C20.Proofs.
+From GU Require Import C20.Model C20.Gen C20.Proofs.
 
 Section WithH.
 Variable D : Type.
@@ -37,11 +37,42 @@ Theorem file_hash_is_content_hash : forall st c chunking,
   digest_of (file_calc true st (FFile c) chunking) = Some (H c).
 Proof. intros. unfold digest_of. now rewrite file_hash_is_content_hash_l. Qed.
 
+(* ---- The same statements about the code AS TRANSLATED FROM THE SOURCE on this run (coq/C20/Gen.v: the bodies of
+   hashingAlgo.CalculateWithContext and fileHashing.calculateFile as statement lists).  An edit of those functions
+   changes [calculate_body] / [calculate_file_body] (or makes the translator fail), so these are re-proved against
+   what the code says now. *)
+Theorem generated_digest_history_independent : forall (hist : list (list ev)) (chunks : list ev) (content : list Z),
+  all_data chunks = true -> delivered chunks = content ->
+  digest_of (gen_calc calculate_body (run_hist_body calculate_body [] hist) chunks) = Some (H content).
+Proof.
+  intros hist chunks content Hd Hc. rewrite generated_calc_is_calc, generated_run_hist.
+  now apply digest_history_independent.
+Qed.
+
+Theorem generated_digest_only_of_complete_stream : forall st s d,
+  fst (gen_calc calculate_body st s) = Some d -> d = delivered s /\ all_data s = true.
+Proof. intros st s d. rewrite generated_calc_is_calc. apply success_digests_delivered. Qed.
+
+Theorem generated_file_hash_is_content_hash : forall st c chunking,
+  all_data (chunking c) = true -> delivered (chunking c) = c ->
+  digest_of (gen_file_calc calculate_file_body calculate_body st (FFile c) chunking) = Some (H c).
+Proof. intros. rewrite generated_file_calc_is_file_calc. now apply file_hash_is_content_hash. Qed.
+
+(* a path that is not a regular file yields an error and leaves the hasher untouched *)
+Theorem generated_file_hash_rejects_non_files : forall st n chunking,
+  match n with FFile _ => False | _ => True end ->
+  gen_file_calc calculate_file_body calculate_body st n chunking = (None, st).
+Proof. intros st n chunking Hn. destruct n; [destruct Hn| |]; reflexivity. Qed.
+
 End WithH.
 Print Assumptions digest_history_independent.
 Print Assumptions digest_chunking_independent.
 Print Assumptions digest_only_of_complete_stream.
 Print Assumptions file_hash_is_content_hash.
+Print Assumptions generated_digest_history_independent.
+Print Assumptions generated_digest_only_of_complete_stream.
+Print Assumptions generated_file_hash_is_content_hash.
+Print Assumptions generated_file_hash_rejects_non_files.
 
 (* The code before the fix (Reset on the success path only) violates the property: kept as documentation of the
    defect that was repaired (known_findings.json, "fixed"); the harness replays this witness on every run. *)
